@@ -125,6 +125,50 @@ pub fn c09(rep: &mut Report, cfg: &Cfg) {
         }
         rep.evaluations += 1 << 21;
     }
+    // ---- time passes: with every peripheral switched off by its OWN registers (timer clock select 0),
+    // stores to all other plain locations followed by elapsed peripheral time must leave every
+    // location as written (a store decoded by the wrong peripheral shows only after time passes)
+    {
+        let _ = cpu.bus.write(0xffff80, 0);
+        mem.poke(0xffff80, 0);
+        let k = cfg.seed.wrapping_mul(977).wrapping_add(cfg.shard);
+        for (lo, hi, name) in REGIONS {
+            if !name.starts_with("io") {
+                continue;
+            }
+            for addr in lo..=hi {
+                if !plain(addr) || (0xffff80..=0xffff9f).contains(&addr) {
+                    continue;
+                }
+                let v = tagf(addr, k) | 1;
+                if cpu.bus.write(addr, v).is_ok() {
+                    mem.poke(addr, v);
+                }
+                rep.evaluations += 1;
+            }
+        }
+        for _ in 0..400 {
+            let _ = catch_unwind(AssertUnwindSafe(|| cpu.verif_update_modules(255)));
+        }
+        let pend = cpu.verif_pending();
+        cpu.verif_clear_pending();
+        if let Some((a, r, m)) = compare_all(&cpu, &mem).first() {
+            rep.finding(
+                "bus|store-has-delayed-effect-elsewhere",
+                || format!("all peripherals off by their own registers, every other plain I/O byte written, 102000 states elapsed: location {:06x} now reads {:02x}, last written {:02x}", a, r, m),
+                || replay_sweep("elapse", *a),
+            );
+            for ri in 0..5 {
+                let rs = region_slices(&cpu)[ri].to_vec();
+                let n = rs.len().min(mem.r[ri].len());
+                mem.r[ri][..n].copy_from_slice(&rs[..n]);
+            }
+        }
+        if !pend.is_empty() {
+            rep.finding("bus|store-has-delayed-effect-elsewhere.interrupt", || format!("with the timer stopped by its own register, elapsed time raised interrupt requests {:?}", pend), || replay_sweep("elapse", 0));
+        }
+        rep.cell("elapse-check", &[1]);
+    }
     rep.exhaustive.push(format!("all 2^24 addresses: read classification, tagged write, block-wise five-array compare, read-back ({} passes, alternating direction)", passes));
     for (lo, hi, name) in REGIONS {
         for d in [-1i64, 0, 1] {
